@@ -1,13 +1,14 @@
 #!/bin/bash
-# tools/rerun_own_parallel.sh [J]   (development aid, not a registered command)
+# tools/rerun_own_parallel.sh [J] [REGEX]   (development aid, not a registered command)
+# REGEX (egrep, on the directory names under seeded/) restricts the pass, e.g. 'C(07|09|12)-' or '-1[12]$'.
 # Re-runs, for every seeded change, the check of the property it was written against (quick tier,
 # seed 0) with the machinery as it stands, J at a time: each worker has a scratch worktree of /repo
 # HEAD under /root/rr-repo-<k> and a copy of /verif under /root/rr-verif-<k> whose harness depends on
 # that worktree. (Every change was confirmed against /repo itself when it was taken in; this pass
 # only refreshes "caught_by_own_check" in the meta.json files.) Scratch copies are removed at the end.
-J=${1:-4}
+J=${1:-4}; RE=${2:-.}
 cd /verif/seeded || exit 2
-ls -d */ | sed 's#/##' > /root/rr-list.txt
+ls -d */ | sed 's#/##' | grep -E "$RE" > /root/rr-list.txt
 for k in $(seq 1 $J); do
   git -C /repo worktree remove --force /root/rr-repo-$k 2>/dev/null
   git -C /repo worktree add -q --detach /root/rr-repo-$k HEAD || exit 2
@@ -19,7 +20,7 @@ worker() {
   awk -v k=$k -v j=$J 'NR % j == k % j' /root/rr-list.txt | while read m; do
     id=${m%-*}
     cd /root/rr-repo-$k && git checkout -q -- . && git apply /verif/seeded/$m/patch.diff || { echo "$m $id APPLY-FAILED" >> /root/rr-results-$k.txt; continue; }
-    out=$(cd /root/rr-verif-$k && VERIF_SEED=0 FFV_REPO_SRC=/root/rr-repo-$k/src ./check $id 2>&1); rc=$?
+    out=$(cd /root/rr-verif-$k && VERIF_SEED=0 FFV_THREADS=8 FFV_REPO_SRC=/root/rr-repo-$k/src ./check $id 2>&1); rc=$?
     echo "$m $id rc=$rc" >> /root/rr-results-$k.txt
     cd /root/rr-repo-$k && git checkout -q -- .
   done
